@@ -58,7 +58,7 @@ def obligations(tier):
 
     # ====================================================================== error metrics ≡ definitions
     for N in (1, 2, 3):
-        for axis in [None] + list(range(N)):
+        for axis in [None] + list(range(N)) + list(range(-N, 0)):
             def setup(S, N=N):
                 n = dims(N)
                 return dict(_S=S, n=n, a=S.input("a", n), b=S.input("b", n))
@@ -69,8 +69,8 @@ def obligations(tier):
                         c = c * S.size(s) if not isinstance(c, int) else S.size(s)
                     return c
                 return S.size(I["n"][axis])
-            def sm(S, t, axis=axis):
-                return S.sum(t, axis=axis)
+            def sm(S, t, axis=axis, N=N):
+                return S.sum(t, axis=axis if axis is None else axis % N)
             tag = f"order={N},axis={axis}"
             inst = dict(order=N, axis=axis)
             add("MSE", tag, setup, lambda I, axis=axis: mr.MSE(I["a"], I["b"], axis=axis),
@@ -180,6 +180,46 @@ def obligations(tier):
             return [("score · 2R ≡ Σ_rows |max_j |x1_i·x2_j| − 1| + Σ_columns |max_i |x1_i·x2_j| − 1| (or 0 below the tolerance)", d_eq(out * (2 * Rk), rows + colsum))]
         obs.append(DOb(PID, f"{PID}/metrics.similarity:_compute_correlation_index/score ≡ definition[{n}x{Rk}]", "tensorly.metrics.similarity:_compute_correlation_index", dict(x1=(n, Rk), x2=(n, Rk)), call, claims,
                        instance=dict(shape=f"{n}x{Rk}"), clause="score ≡ definition (row and column maxima)", check_domain=False))
+    # ====================================================================== correlation_index, mode-wise methods: the scoring formula (by its contract, above) is
+    # applied to each pair of factor matrices with columns normalised IN THAT MODE - which is what makes the index 0 for copies rescaled differently in each mode -
+    # and the scores are combined as the method says
+    for method, comb in (("max_score", max), ("min_score", min), ("avg_score", lambda v: sum(v) / len(v))):
+        for n_mats in (1, 2, 3):
+            def setup(S, n_mats=n_mats):
+                d = dict(_S=S)
+                R = atom("R")
+                for m in range(n_mats):
+                    nm = atom(f"n{m}")
+                    d[f"U{m}"] = S.input(f"U{m}", [nm, R])
+                    d[f"V{m}"] = S.input(f"V{m}", [nm, R])
+                return d
+            def call(I, method=method, n_mats=n_mats):
+                rec = []
+                scores = [0.375, 0.125, 0.25]
+                def cci(x1, x2, tol=5e-16):
+                    rec.append((x1, x2, tol))
+                    return scores[len(rec) - 1]
+                try:
+                    with stubbed(ms, _compute_correlation_index=cci):
+                        out = ms.correlation_index([I[f"U{m}"] for m in range(n_mats)], [I[f"V{m}"] for m in range(n_mats)], method=method, tol=1e-12)
+                except ValueError as e:
+                    if "non-zero" in str(e):
+                        return dict(raised=True)       # documented error for a zero column
+                    raise
+                return dict(out=out, rec=rec, scores=scores[:len(rec)])
+            def post(S, I, r, method=method, comb=comb, n_mats=n_mats):
+                if r.get("raised"):
+                    return []
+                out = [("one scoring call per mode, with the caller's tolerance", [len(r["rec"])] + [t for _, _, t in r["rec"]], [n_mats] + [1e-12] * n_mats),
+                       ("the scores are combined as the method says", r["out"], comb(r["scores"]))]
+                for m, (x1, x2, _) in enumerate(r["rec"][:n_mats]):
+                    U, V = I[f"U{m}"], I[f"V{m}"]
+                    out.append((f"mode {m}: first argument ≡ factor with its own columns normalised", x1, U / S.sqrt(S.einsum("ir,ir->r", U, U))))
+                    out.append((f"mode {m}: second argument ≡ factor with its own columns normalised", x2, V / S.sqrt(S.einsum("ir,ir->r", V, V))))
+                return out
+            obs.append(GOb(PID, f"{PID}/metrics.similarity:correlation_index/per-mode column normalisation ∧ scores combined per method[method={method},matrices={n_mats}]",
+                           "tensorly.metrics.similarity:correlation_index", setup, call, post, tenalg="core", instance=dict(method=method, matrices=n_mats), side_nonzero=True,
+                           clause="per-mode column normalisation ∧ scores combined per method", forall=["row counts", "rank", "entries"], enumerated=["method", "matrices"]))
     # ====================================================================== bounded stand-in: optimality by brute force, ranges, invariances, leverage scores
     def bounded():
         import warnings
